@@ -635,6 +635,12 @@ def programs(*, max_statements=4, max_leaves=6, max_offset=3, named_periods=Fals
             if call_ok:
                 opts.append(st.sampled_from(call_ok).flatmap(
                     lambda c: st.lists(ch, min_size=c[1], max_size=c[1]).map(lambda a: ['call', c[0], a])))
+                one = [c for c in call_ok if c[1] == 1]
+                if one:
+                    # a call whose whole argument is a signed integer literal: f(-1) reads like a lag in other modelling
+                    # languages, here it is a function call
+                    opts.append(st.tuples(st.sampled_from(one), st.sampled_from(['-', '-', '+']), st.sampled_from(['1', '2', '3', '10'])).map(
+                        lambda x: ['call', x[0][0], [['un', x[1], ['num', x[2]]]]]))
             return st.one_of(*opts)
 
         expr = st.recursive(leaf, extend, max_leaves=max_leaves)
